@@ -8,9 +8,12 @@ in force is max(1, floor(configured goal / current number of peers)) after any s
 membership changes, sampler creations and configuration reloads; throughput samplers without
 UseClusterSize always use their configured goal.
 
-Vocabulary as in `Props/C12.lean`.  "Current number of peers" is `lastGood a0 ops`: the size of the
-most recent non-empty, successfully queried membership (failed and empty answers are ignored, as
-`updatePeerCounts` does), 1 before any.  The goal of instance `id` is `st.insts[id].goal`.  A goal of
+Vocabulary as in `Props/C12.lean`.  A membership change has two steps that other work may come
+between: the peer source starts answering differently (`peerset n` / `peersetFail`) and, later, the
+registered callback runs (`peercb`); `peers n` / `peersFail` are the two steps at once.  The count in
+force is `st.peerCount`; `peerCount_after_callback` / `peerCount_spec` tie it to the membership: after
+the callback it is the size of the peer list (failed and empty answers are ignored, as
+`updatePeerCounts` does; 1 before any good answer).  The goal of instance `id` is `st.insts[id].goal`.  A goal of
 0 in the configuration means the dynsampler library default (`creationGoal`).
 
 Result: the UseClusterSize half is proved at registry level for all histories and per definition
@@ -21,48 +24,67 @@ reproduced on the real code, corpus/C13) and proved under the no-collision hypot
 namespace Refinery.Props.C13
 open Refinery Refinery.Model.SamplerRegistry Refinery.Lemmas.SamplerRegistry
 
-/-- **peerCount_spec** — after any history the peer count the factory divides by is the current
-number of peers in the property's sense, and it is never 0. -/
-theorem peerCount_spec (c0 : Config) (a0 : Option Nat) (cfgs : List Config) (ops : List Op) :
+/-- **peerCount_spec** — when every membership change is delivered together with its callback, the
+peer count the factory divides by is, after any history, the size of the most recent non-empty
+successfully queried membership (`lastGood`), and it is never 0. -/
+theorem peerCount_spec (c0 : Config) (a0 : Option Nat) (cfgs : List Config) (ops : List Op)
+    (hs : NoSplit ops) :
     (run c0 a0 cfgs ops).peerCount = lastGood a0 ops ∧ 1 ≤ (run c0 a0 cfgs ops).peerCount := by
   constructor
   · rw [lastGood_eq]
-    exact foldl_pc cfgs ops (init c0 a0) (by simp only [Sync, init]; exact refresh_idem _ _)
+    exact foldl_pc cfgs ops (init c0 a0) (by simp only [Sync, init]; exact refresh_idem _ _) (noSplit_iff hs)
   · exact (inv_run c0 a0 cfgs (fun _ => True) ops (fun _ _ _ => trivial)).r.pcPos
 
-/-- **goal_invariant (registry level)** — after any history of peer changes (including failing and
-empty queries), creations on any worker, config swaps and reloads: every registered throughput
-dynsampler whose key has a remembered configured goal `c` (some UseClusterSize definition with that
-key was created since the last reload) has goal `max(c / peers, 1)`, and every other one still has
-the goal it was created with. -/
+/-- **peerCount_after_callback** — whatever happened between a membership change and its callback
+(sampler creations, reloads, further changes): once the callback has run, the count in force is the
+size of the peer list the source answers now; a failing or empty answer leaves it as it was. -/
+theorem peerCount_after_callback (c0 : Config) (a0 : Option Nat) (cfgs : List Config) (ops : List Op) :
+    (∀ n, srcAnswer a0 ops = some n → 0 < n → (run c0 a0 cfgs (ops ++ [.peercb])).peerCount = n) ∧
+    ((srcAnswer a0 ops = none ∨ srcAnswer a0 ops = some 0) →
+      (run c0 a0 cfgs (ops ++ [.peercb])).peerCount = (run c0 a0 cfgs ops).peerCount) ∧
+    1 ≤ (run c0 a0 cfgs (ops ++ [.peercb])).peerCount := by
+  have hrun : run c0 a0 cfgs (ops ++ [.peercb]) = step cfgs (run c0 a0 cfgs ops) .peercb := by
+    simp [run, List.foldl_append]
+  have hact : (run c0 a0 cfgs ops).actual = srcAnswer a0 ops := by
+    unfold run srcAnswer
+    rw [foldl_actual]; rfl
+  have hpc := (step_peercb cfgs (run c0 a0 cfgs ops)).1
+  rw [← hrun, hact] at hpc
+  refine ⟨fun n hn hpos => ?_, fun hbad => ?_, ?_⟩
+  · rw [hpc, hn]; simp [refreshCount, hpos]
+  · rw [hpc]
+    rcases hbad with h | h <;> rw [h] <;> simp [refreshCount]
+  · exact (inv_run c0 a0 cfgs (fun _ => True) _ (fun _ _ _ => trivial)).r.pcPos
+
+/-- **goal_invariant (registry level)** — after any history of membership changes (callback
+delayed or not, failing and empty queries), creations on any worker, config swaps and reloads: every
+registered throughput dynsampler whose key has a remembered configured goal `c` (some UseClusterSize
+definition with that key was created since the last reload) has goal `max(c / peers in force, 1)`,
+and every other one still has the goal it was created with. -/
 theorem goal_invariant_registry (c0 : Config) (a0 : Option Nat) (cfgs : List Config) (ops : List Op) :
     ∀ k id i, (k, id) ∈ (run c0 a0 cfgs ops).reg → (run c0 a0 cfgs ops).insts[id]? = some i →
       i.kind.isThroughput = true →
       match AList.get (run c0 a0 cfgs ops).goalCfg k with
-      | some c => i.goal = max (Int.tdiv c (lastGood a0 ops)) 1
+      | some c => i.goal = max (Int.tdiv c (run c0 a0 cfgs ops).peerCount) 1
       | none => i.goal = creationGoal i.creator.rate := by
   intro k id i hm hi ht
   have inv := inv_run c0 a0 cfgs (fun _ => True) ops (fun _ _ _ => trivial)
-  have hpc := (peerCount_spec c0 a0 cfgs ops).1
   cases hg : AList.get (run c0 a0 cfgs ops).goalCfg k with
-  | some c =>
-    have := inv.r.goalTracked k id i c hm hi ht hg
-    simp only [newGoal, hpc] at this
-    exact this
+  | some c => exact inv.r.goalTracked k id i c hm hi ht hg
   | none => exact inv.r.goalUntracked k id i hm hi ht hg
 
 /-- **goal_invariant** — whenever registry keys determine sampler type and goal (`Faithful`; implied
 by sampler keys without ':'), after any history: the instance behind every throughput sampler slot
-with UseClusterSize built since the last reload has goal `max(configured goal / current peers, 1)`. -/
+with UseClusterSize built since the last reload has goal `max(configured goal / peers in force, 1)`
+— all of them, not only the one created last. -/
 theorem goal_invariant (c0 : Config) (a0 : Option Nat) (cfgs : List Config) (ops : List Op)
     (E : Str → Prop) (ho : OpsIn E ops) (hF : Faithful (InPlay (c0 :: cfgs) E)) :
     ∀ key ent, (key, ent) ∈ (run c0 a0 cfgs ops).caches → ent.epoch = (run c0 a0 cfgs ops).epoch →
       ∀ s ∈ ent.slots, s.d.kind.isThroughput = true → s.d.useCluster = true → ∀ id, s.id = some id →
         ∃ i, (run c0 a0 cfgs ops).insts[id]? = some i ∧
-          i.goal = max (Int.tdiv s.d.rate (lastGood a0 ops)) 1 := by
+          i.goal = max (Int.tdiv s.d.rate (run c0 a0 cfgs ops).peerCount) 1 := by
   intro key ent hm hep s hs ht hu id hid
   have inv := inv_run c0 a0 cfgs E ops ho
-  have hpc := (peerCount_spec c0 a0 cfgs ops).1
   have hcur := inv.f hF key ent hm hep s hs id hid
   obtain ⟨hP, _, _, hi⟩ := (inv.c.slotWF key ent hm).2 s hs
   obtain ⟨i, hget, _, _, hok⟩ := hi id hid
@@ -76,7 +98,7 @@ theorem goal_invariant (c0 : Config) (a0 : Option Nat) (cfgs : List Config) (ops
     have := inv.r.goalTracked _ id i c (AList.mem_of_get hcur) hget (by rw [hik]; exact ht) hg
     refine ⟨i, hget, ?_⟩
     rw [this, ← hrate, hr]
-    simp only [newGoal, hpc]
+    rfl
 
 /-- `goal_invariant` for sampler keys (environment / dataset names) that contain no ':' -/
 theorem goal_invariant_colonFree (c0 : Config) (a0 : Option Nat) (cfgs : List Config) (ops : List Op)
@@ -84,8 +106,28 @@ theorem goal_invariant_colonFree (c0 : Config) (a0 : Option Nat) (cfgs : List Co
     ∀ key ent, (key, ent) ∈ (run c0 a0 cfgs ops).caches → ent.epoch = (run c0 a0 cfgs ops).epoch →
       ∀ s ∈ ent.slots, s.d.kind.isThroughput = true → s.d.useCluster = true → ∀ id, s.id = some id →
         ∃ i, (run c0 a0 cfgs ops).insts[id]? = some i ∧
-          i.goal = max (Int.tdiv s.d.rate (lastGood a0 ops)) 1 :=
+          i.goal = max (Int.tdiv s.d.rate (run c0 a0 cfgs ops).peerCount) 1 :=
   goal_invariant c0 a0 cfgs ops _ ho (faithful_of_colonFree _ _ (fun _ h => h))
+
+/-- **goal_invariant_after_callback** — in the property's words: once the membership callback has
+run with the peer list at `n > 0` members — whatever was created or reloaded between the change and
+the callback — *every* live UseClusterSize throughput sampler has goal `max(configured goal / n, 1)`. -/
+theorem goal_invariant_after_callback (c0 : Config) (a0 : Option Nat) (cfgs : List Config) (ops : List Op)
+    (ho : OpsIn (fun e => ':' ∉ e) ops) (n : Nat) (hn : srcAnswer a0 ops = some n) (hpos : 0 < n) :
+    ∀ key ent, (key, ent) ∈ (run c0 a0 cfgs (ops ++ [.peercb])).caches →
+      ent.epoch = (run c0 a0 cfgs (ops ++ [.peercb])).epoch →
+      ∀ s ∈ ent.slots, s.d.kind.isThroughput = true → s.d.useCluster = true → ∀ id, s.id = some id →
+        ∃ i, (run c0 a0 cfgs (ops ++ [.peercb])).insts[id]? = some i ∧
+          i.goal = max (Int.tdiv s.d.rate n) 1 := by
+  intro key ent hm hep s hs ht hu id hid
+  have ho' : OpsIn (fun e => ':' ∉ e) (ops ++ [.peercb]) := by
+    intro w e hmem
+    rcases List.mem_append.mp hmem with h | h
+    · exact ho w e h
+    · simp at h
+  obtain ⟨i, hi, hg⟩ := goal_invariant_colonFree c0 a0 cfgs _ ho' key ent hm hep s hs ht hu id hid
+  rw [(peerCount_after_callback c0 a0 cfgs ops).1 n hn hpos] at hg
+  exact ⟨i, hi, hg⟩
 
 /-- The second half of C13 at full strength: the instance behind every throughput sampler slot
 without UseClusterSize built since the last reload has its configured goal. -/
@@ -144,6 +186,9 @@ theorem no_cluster_size_fixed (c0 : Config) (a0 : Option Nat) (cfgs : List Confi
 example : ((run cfgLeak (some 3) [] [.get 0 (str "prod")]).insts.map (·.goal)) = [33] := by decide
 example : ((run cfgLeak (some 3) [] [.get 0 (str "prod"), .peers 0, .peersFail, .peers 1000]).insts.map (·.goal)) = [1] := by decide
 example : lastGood none [.peers 0, .peers 5, .peersFail, .get 0 (str "x"), .peers 0] = 5 := by decide
+example : ((run cfgLeak (some 1) [] [.get 0 (str "prod"), .peerset 4, .get 1 (str "other"), .peercb]).insts.map (·.goal)) = [25] := by decide
+example : ((run [(str "a", .leaf (emt true)), (str "b", .leaf { emt true with rate := 60 })] (some 1) []
+    [.get 0 (str "a"), .peerset 3, .get 0 (str "b"), .peercb]).insts.map (·.goal)) = [33, 20] := by decide
 example : ((run [(str "p", .leaf (emt false))] (some 7) [] [.get 0 (str "p"), .peers 9]).insts.map (·.goal)) = [100] := by decide
 example : newGoal (-3) 2 = 1 ∧ newGoal 7 2 = 3 ∧ newGoal 0 5 = 1 := by decide
 
